@@ -359,7 +359,7 @@ def oracle_ddp(case: dict) -> Outcome:
 
 
 STREAMS = {
-    "roundtrip": Stream("roundtrip", oracle=oracle, strategy=strategy, quick=480, thorough=12000, shards_quick=16, shards_thorough=16),
-    "long_run": Stream("long_run", oracle=oracle_long, strategy=strategy_long, quick=48, thorough=600, shards_quick=16, shards_thorough=16),
-    "ddp_layout": Stream("ddp_layout", oracle=oracle_ddp, strategy=strategy_ddp, quick=160, thorough=3000, shards_quick=16, shards_thorough=16),
+    "roundtrip": Stream("roundtrip", oracle=oracle, strategy=strategy, quick=480, thorough=4000, shards_quick=16, shards_thorough=16),
+    "long_run": Stream("long_run", oracle=oracle_long, strategy=strategy_long, quick=48, thorough=300, shards_quick=16, shards_thorough=16),
+    "ddp_layout": Stream("ddp_layout", oracle=oracle_ddp, strategy=strategy_ddp, quick=160, thorough=1500, shards_quick=16, shards_thorough=16),
 }
